@@ -143,6 +143,17 @@ def three_way(rep, drv, ops, label, fuel=4000, skip_ref_ops=()):
             rep.disagreements_checked += 1
             rep.broken_ties.append({'tie': 'T2p model of Python running the emitted text vs real', 'label': label, 'op_index': i,
                                     'real': r, 'model_python': norm(pyt[i]), 'ops': ops_json(ops), 'prolog': texts})
+    else:
+        if verdict == 'ok':
+            # tie T5: code and model agree with each other; do they agree with Prolog?
+            from . import indep
+            d = indep.compare(rep, ops, real)
+            if d is not None:
+                rep.disagreements_checked += 1
+                d.update({'kind': 'answers differ from an independent textbook Prolog interpreter (the model of the '
+                                  'reference semantics agrees with the code)', 'label': label, 'ops': ops_json(ops), 'prolog': texts})
+                rep.violation(d)
+                return 'property'
     return verdict
 
 
